@@ -32,7 +32,7 @@ RULE = ("pure: random body pairs (b derived from a by 0-6 random edits, or indep
         "edits change it. non-trivial = the pair differs in at least one leaf or the write set is non-empty; distinct = hash of (a,b) or of (body, config, writes). "
         "loop: two-operator and field-handler scenarios; distinct = hash of handler call sequence")
 ASSUMPTIONS = ["JSON equality modulo null==absent", "fake API server semantics for the closed-loop part"]
-GATES = {'o5_selfcheck': 20, 'o1_pairs': 1000, 'o1_nonempty': 500, 'o2_fields': 2000, 'o3_writes': 500, 'o4_edits': 500, 'loop_calls_with_diff': 50, 'two_operator_runs': 1, 'repo_test_diff_evaluations': 0}
+GATES = {'o5_selfcheck': 20, 'o1_pairs': 1000, 'o1_nonempty': 500, 'o2_fields': 2000, 'o3_writes': 500, 'o4_edits': 500, 'loop_calls_with_diff': 50, 'empty_essence_objects': 5, 'two_operator_runs': 1, 'repo_test_diff_evaluations': 0}
 
 KEY_ALPHABET = ['a', 'b', 'c', 'x.y', 'p/q', 'ключ', '', 'a b', '0', 'kopf', 'status', 'spec', 'metadata', 'élan', '~t', 'true']
 LEAVES: list[Any] = [0, 1, 2, -1, 1.5, 0.0, True, False, None, '', 'a', 'b', 'строка', '0', '1', 'true', [], {}, [1, 2], [{'a': 1}], [None]]
@@ -409,7 +409,10 @@ def run_loop(case: dict[str, Any]) -> dict[str, Any]:
         {'kind': 'field', 'id': 'fs', 'opts': {'field': 'spec'}},
         {'kind': 'update', 'id': 'ust', 'opts': {'field': 'status.observed'}},
     ]
-    tl: list[list[Any]] = [[0, 'start', 'op1'], [1, 'create', 'o', {'spec': {'a': 1, 'deep': {'x': 1, 'y': [1]}}, 'metadata': {'labels': {'l': '1'}}}]]
+    # the object as created: usually with a payload, sometimes with NOTHING essential at all (no spec, no labels, no ordinary annotations: its
+    # essence is the empty mapping -- a falsy value), or with a status only
+    body0 = rng.choice([{'spec': {'a': 1, 'deep': {'x': 1, 'y': [1]}}, 'metadata': {'labels': {'l': '1'}}}] * 3 + [{}, {'status': {'observed': 1}}, {'spec': {}}])
+    tl: list[list[Any]] = [[0, 'start', 'op1'], [1, 'create', 'o', body0]]
     t = 3.0
     for k in range(rng.randint(3, 8)):
         t = round(t + rng.choice([0.2, 1.0, 3.0]), 3)
@@ -420,6 +423,7 @@ def run_loop(case: dict[str, Any]) -> dict[str, Any]:
             {'metadata': {'labels': {'l': rng.choice(['1', '2', None]), 'm': rng.choice(['x', None])}}},
             {'status': {'observed': rng.choice([1, 2, {'deep': True}, None])}},
             {'spec': None},
+            {'spec': None, 'metadata': {'labels': None}},        # nothing essential is left
             {'spec': {'b': {'ключ': 'значение', 'x.y': 1, 'p/q': None}}},
         ])
         tl.append([t, 'edit', 'o', patch])
@@ -451,6 +455,18 @@ def run_loop(case: dict[str, Any]) -> dict[str, Any]:
                 want_new = resolve(body, tuple(f.split('.')))
                 if not json_eq_mod_null(new, want_new) and not f.startswith('status'):
                     viol.append({'mech': 'handler-new-mismatch', 'msg': f"{c['h']}: new kwarg for field {f} is {new!r} but the object it was invoked for has {want_new!r}", 'witness': None})
+    # handling never triggers itself: the object is created once and never re-created, so its creation is handled once; and every update
+    # cycle answers an external essential edit (status edits and the operator's own writes are none)
+    creates = [c for c in ix.calls if c['h'] == 'c1']
+    if len(creates) > 1:
+        viol.append({'mech': 'self-trigger', 'msg': f"the creation handler ran {len(creates)} times for an object created once (views rv={[c['rv'] for c in creates][:6]}): "
+                                                   f"handling was triggered by something that is not an essential change", 'witness': {'body0': body0}})
+    ext = sum(1 for op in tl if op[1] == 'edit')      # (status.observed is a field of interest of a registered handler here, hence part of the essence)
+    u_ok = sum(1 for r in ix.rets.values() if r['h'] == 'u1' and r['outcome'] == 'ok')
+    if u_ok > ext:
+        viol.append({'mech': 'self-trigger', 'msg': f"the whole-object update handler completed {u_ok} times for {ext} external edits", 'witness': None})
+    if json_eq_mod_null(body0.get('spec') or {}, {}) and not (body0.get('metadata') or {}).get('labels'):
+        cov['empty_essence_objects'] = 1
     for s in Stall.take_hits():
         viol.append({'mech': 'stall', 'msg': 'event loop stalled', 'witness': s})
     cov['loop_calls_with_diff'] = n
